@@ -222,8 +222,9 @@ class ShelxlRefine():
             self.backup_shx_file()
         print(sep_line)
         print(' Running SHELXL with "{}" and "{}"'.format(' '.join(command_line), self.shx.cycles))
+        # SHELXL echoes the title, which may hold bytes that cannot be decoded. They must not end the run here:
         with subprocess.Popen(command_line, stdout=subprocess.PIPE, stderr=subprocess.STDOUT, bufsize=1,
-                              universal_newlines=True) as p:
+                              universal_newlines=True, errors='replace') as p:
             for line in p.stdout.readlines():
                 # output only the most importand things from shelxl:
                 self.pretty_shx_output(line)
